@@ -25,14 +25,16 @@ Proof. exact check_no_open. Qed.
    unknown part and validates against the provider's declared input schema; they are an object; the run is not
    a check; [c] is the environment named in the expression id, [r] the root environment.
    Root names: environment.go CopyForEnv treats "" AND "<yaml>" (esc.AnonymousEnvironmentName) as anonymous and
-   replaces them by the name of the environment being entered; Model/Eval.v replaces only "".  The clause is therefore
-   stated for roots that are neither (for "<yaml>" the model deviates from the code: C05_yaml_root_model_deviation,
-   measured on every run by the `yaml_root` family of the correspondence). *)
+   replaces them by the name of the environment being entered, and so does Model/Eval.v.  Hence [r = name] is the rule
+   for roots that are neither (it is FALSE, of the code and of the model, for an anonymous root: C05_yaml_root_follows_source),
+   and for EVERY root name the provider is never told an anonymous root unless it sits in that anonymous environment
+   itself.  The `yaml_root` family of the correspondence is part of the compared cases. *)
 Theorem C05_open_inputs_ok : forall fuel W name d id p xin r c,
   In (EvOpen id p xin r c) (ob_log (run fuel W name d)) ->
   w_check W = false
   /\ c = fst id
   /\ (name <> "" -> name <> "<yaml>" -> r = name)
+  /\ (C05.anonymous_name r = false \/ r = c)
   /\ exists pv iv,
        alookup p (w_provs W) = Some pv
        /\ export big_fuel iv = Some xin
@@ -48,6 +50,7 @@ Theorem C05_open_inputs_ok_env : forall W fuel root name d id p xin r c,
   w_check W = false
   /\ c = fst id
   /\ (eff_root root name <> "" -> eff_root root name <> "<yaml>" -> r = eff_root root name)
+  /\ (C05.anonymous_name r = false \/ r = c)
   /\ exists pv iv,
        alookup p (w_provs W) = Some pv
        /\ export big_fuel iv = Some xin
@@ -57,12 +60,12 @@ Theorem C05_open_inputs_ok_env : forall W fuel root name d id p xin r c,
        /\ x_is_obj xin = true.
 Proof. exact open_inputs_ok_named. Qed.
 
-(* what the MODEL answers for a root named "<yaml>": the provider of an imported environment is told "<yaml>", where
-   eval.EvalEnvironment tells it "imp" - the reason for the hypothesis above *)
-Example C05_yaml_root_model_deviation :
+(* a root named "<yaml>": the provider of an imported environment is told "imp", as eval.EvalEnvironment tells it
+   (before the root-name repair the model said "<yaml>") - the reason for the hypothesis [name <> "<yaml>"] above *)
+Example C05_yaml_root_follows_source :
   ob_log (run 30 W_yaml "<yaml>" d_yaml)
-  = [EvLoad "imp"; EvLoadProvider "q"; EvOpen ("imp", [IKey "b"]) "q" (XObj false false []) "<yaml>" "imp"].
-Proof. exact yaml_root_model_deviation. Qed.
+  = [EvLoad "imp"; EvLoadProvider "q"; EvOpen ("imp", [IKey "b"]) "q" (XObj false false []) "imp" "imp"].
+Proof. exact yaml_root_follows_source. Qed.
 
 (* expression level: evaluating an expression that sits in environment context [E] (id rooted at ec_name E)
    from ANY state only prepends events; each new one is a LoadProvider, an Open with r = ec_root E,
@@ -116,33 +119,47 @@ Proof. exact id_extend_inj. Qed.
 Definition C05_load_at_most_once_statement : Prop :=
   forall W fuel root name d, NoDup (all_loads (log (snd (eval_env W fuel root name d st0)))).
 
-(* it is FALSE of the model and of the code (known finding C05-failed-load-retried): eval.evaluateImport leaves all three
-   error exits (loader error, parse diagnostics, nil environment) before the name reaches e.imports, so a failing import
-   is loaded again by every further listing and through every further import path; witness: ("bad", unparsable),
-   imports [bad; bad; bad], no fault plan - three loads *)
-Theorem C05_load_at_most_once_refuted : ~ C05_load_at_most_once_statement.
-Proof. exact load_at_most_once_refuted. Qed.
+(* it HOLDS since eval.evaluateImport remembers a failed import (imported{failed: true}; the repair of the former known
+   finding C05-failed-load-retried, docs/patches/C05-failed-import-remembered.fix.patch): every load - successful or not -
+   leaves an entry in e.imports, and a name with an entry is never loaded again; for EVERY fault plan *)
+Theorem C05_load_at_most_once : C05_load_at_most_once_statement.
+Proof. exact load_at_most_once_all. Qed.
 
-Example C05_retried_load_logs :
-  ob_log (run 30 W_badimport "root" d_triple_bad) = [EvLoad "bad"; EvLoad "bad"; EvLoad "bad"]
-  /\ ob_log (run 30 W_twopaths "root" d_twopaths) = [EvLoad "a"; EvLoad "bad"; EvLoad "b"; EvLoad "bad"]
-  /\ retried_failed W_badimport (log (snd (eval_env W_badimport 30 "" "root" d_triple_bad st0))) = true
-  /\ retried_failed W_twopaths (log (snd (eval_env W_twopaths 30 "" "root" d_twopaths st0))) = true.
-Proof. exact retried_load_logs. Qed.
+Theorem C05_run_load_at_most_once : forall fuel W name d, NoDup (all_loads (ob_log (run fuel W name d))).
+Proof. exact run_load_at_most_once. Qed.
 
-(* ... and TRUE outside the decidable class [retried_failed] (some load that failed - loader error, unparsable
-   definition, or the faulted call - has its name loaded again), for EVERY fault plan *)
+(* the former witnesses: ("bad", unparsable), imports [bad; bad; bad] - ONE load, one diagnostic; root -> a -> bad and
+   root -> b -> bad with a failing loader - ONE load of bad, one diagnostic *)
+Example C05_failed_load_remembered_logs :
+  ob_log (run 30 W_badimport "root" d_triple_bad) = [EvLoad "bad"]
+  /\ nerr (snd (eval_env W_badimport 30 "" "root" d_triple_bad st0)) = 1%N
+  /\ ob_log (run 30 W_twopaths "root" d_twopaths) = [EvLoad "a"; EvLoad "bad"; EvLoad "b"]
+  /\ nerr (snd (eval_env W_twopaths 30 "" "root" d_twopaths st0)) = 1%N
+  /\ retried_failed W_badimport (log (snd (eval_env W_badimport 30 "" "root" d_triple_bad st0))) = false
+  /\ retried_failed W_twopaths (log (snd (eval_env W_twopaths 30 "" "root" d_twopaths st0))) = false.
+Proof. exact failed_load_remembered_logs. Qed.
+
+(* ---- corollaries: what was provable while failed loads were retried ---- *)
+(* outside the decidable class [retried_failed] (some load that failed - loader error, unparsable definition, or the
+   faulted call - has its name loaded again); the class is now EMPTY on the evaluator's logs *)
 Theorem C05_load_at_most_once_partial : forall W fuel root name d,
   retried_failed W (log (snd (eval_env W fuel root name d st0))) = false ->
   NoDup (all_loads (log (snd (eval_env W fuel root name d st0)))).
 Proof. exact load_at_most_once_partial. Qed.
 
+Theorem C05_retried_failed_never : forall W fuel root name d,
+  retried_failed W (log (snd (eval_env W fuel root name d st0))) = false.
+Proof. exact retried_failed_never. Qed.
+
 (* inside the class the statement fails by definition of the class: it is exact *)
 Theorem C05_load_class_exact : forall W l, retried_failed W l = true -> ~ NoDup (all_loads l).
 Proof. exact class_not_once. Qed.
 
-(* the discipline behind both: a load that is followed by another load of the same name (the log is newest first:
-   [a] is what came later) was a FAILED one - nothing is ever loaded again after a successful load *)
+(* no load is followed by another load of the same name (the log is newest first: [a] is what came later) *)
+Theorem C05_never_reloaded : forall W fuel root name d a n b,
+  log (snd (eval_env W fuel root name d st0)) = a ++ EvLoad n :: b -> ~ In n (all_loads a).
+Proof. exact never_reloaded. Qed.
+
 Theorem C05_reload_only_after_failure : forall W fuel root name d a n b,
   log (snd (eval_env W fuel root name d st0)) = a ++ EvLoad n :: b ->
   In n (all_loads a) ->
@@ -197,10 +214,18 @@ Theorem C05_matched_opens_ok : forall fuel W name d lg p i r c,
   /\ x_is_obj i = true
   /\ (exists pv, alookup p (w_provs W) = Some pv)
   /\ (name <> "" -> name <> "<yaml>" -> r = name)
+  /\ (C05.anonymous_name r = false \/ r = c)
   /\ (c = name \/ In (OLoad c) lg).
 Proof. exact matched_opens_ok_named. Qed.
 
-(* successful loads only (see C05_load_at_most_once_refuted for all loads) *)
+(* ALL loads, EVERY fault plan: a name the implementation loaded was loaded exactly once *)
+Theorem C05_matched_loads_once : forall fuel W name d lg n,
+  log_matches (ob_log (run fuel W name d)) lg = true ->
+  In (OLoad n) lg ->
+  C05.count_str n (oloads lg) = 1%nat.
+Proof. exact matched_loads_once_all. Qed.
+
+(* the former partial form: successful loads, no fault plan *)
 Theorem C05_matched_loads_once_partial : forall fuel W name d lg n,
   w_fault W = None -> ok_load W n = true ->
   log_matches (ob_log (run fuel W name d)) lg = true ->
@@ -228,16 +253,15 @@ Example C05_ex_refs_and_import :
      EvDecrypt "e" "c1ph3r"].
 Proof. vm_compute. reflexivity. Qed.
 
-(* imports [imp, imp, imp] with the first collaborator call faulted: loaded twice, ONE successful load *)
+(* imports [imp, imp, imp] with the first collaborator call faulted: the load fails, the failure is remembered, imp is
+   neither loaded again nor evaluated *)
 Definition C05_ex_faulty : world :=
   {| w_envs := w_envs (ex_world false false); w_provs := w_provs (ex_world false false); w_ctx := [];
      w_check := false; w_show := false; w_fault := Some 0; w_decrypt := fun _ _ => None |}.
 Definition C05_ex_triple : envdef :=
   {| ed_imports := [("imp", true); ("imp", true); ("imp", true)]; ed_values := [("z", ENull)] |}.
 
-Example C05_ex_retry_after_failed_load :
+Example C05_ex_no_retry_after_failed_load :
   let lg := log (snd (eval_env C05_ex_faulty 30 "" "e" C05_ex_triple st0)) in
-  rev lg = [EvLoad "imp"; EvLoad "imp"; EvLoadProvider "p";
-            EvOpen ("imp", [IKey "b"]) "p" (XObj false false [("k", XScalar false false (SStr "w"))]) "e" "imp"]
-  /\ succ_loads C05_ex_faulty lg = ["imp"].
-Proof. vm_compute. split; reflexivity. Qed.
+  rev lg = [EvLoad "imp"] /\ succ_loads C05_ex_faulty lg = [] /\ failed_loads C05_ex_faulty lg = ["imp"].
+Proof. vm_compute. repeat split; reflexivity. Qed.
